@@ -94,7 +94,13 @@ func lexerGoroutines() int {
 	stackMu.Lock()
 	defer stackMu.Unlock()
 	n := runtime.Stack(stackBuf, true)
-	return bytes.Count(stackBuf[:n], []byte("parse.(*lexer)"))
+	cnt := 0
+	for _, g := range bytes.Split(stackBuf[:n], []byte("\n\n")) {
+		if bytes.Contains(g, []byte("parse.(*lexer)")) {
+			cnt++ // one per goroutine, however many frames of the tokeniser its stack shows
+		}
+	}
+	return cnt
 }
 
 // blockedLexers counts tokeniser goroutines parked in a channel send.
@@ -220,9 +226,17 @@ func init() {
 		deadline := time.Now().Add(2 * time.Second)
 		var g1, l1, f1 int
 		stuck := 0
+		lastG, lastL, since := -1, -1, time.Now()
 		for {
 			g1, l1, f1 = runtime.NumGoroutine(), lexerGoroutines(), countFDs()
 			if (g1 <= g0 && l1 <= l0) || time.Now().After(deadline) {
+				break
+			}
+			// goroutines that neither leave nor change in number for 150 ms are not on their way out (an exiting tokeniser
+			// needs microseconds): blocked for good or spinning - no need to wait out the full two seconds
+			if g1 != lastG || l1 != lastL {
+				lastG, lastL, since = g1, l1, time.Now()
+			} else if time.Since(since) > 150*time.Millisecond {
 				break
 			}
 			// tokenisers parked on their channel send stay there for good: no need to wait the full two seconds
